@@ -16,7 +16,7 @@ cd $S/verif && python3 tools/gen_nd.py && (cd lean && lake build Dtr dtr_model >
 out=$S/results.tsv; : > $out
 claimed=$(python3 -c "import json;print(' '.join(c['property_id'] for c in json.load(open('MANIFEST.json'))['checks']))")
 for d in $S/verif/seeded/*/; do
-  id=$(basename $d); prop=${id%-*}
+  id=$(basename $d); prop=${id%%-*}; [ -n "${ONLY:-}" ] && ! echo "$id" | grep -q "$ONLY" && continue
   git -C $S/repo checkout -q -- . ; git -C $S/repo apply $d/patch.diff || { echo -e "$id\tPATCH-FAILED" >> $out; continue; }
   plist="$prop"; [ "${ALL:-0}" = "1" ] && plist="$claimed"
   for p in $plist; do
